@@ -20,6 +20,13 @@ CLAIMED['C02'] = ('cbmc-c+ir2c', 'bounded model checking (CBMC/SAT,SMT): miters 
 CLAIMED['C18'] = ('ir2c', 'bounded model checking (CBMC with cvc5 bit-vectors-as-integers / kissat / z3) of the clang IR of ImathRandom.cpp and ImathRandom.h translated to C, from every generator state',
     'nrand48/erand48/lrand48/drand48/srand48 against the POSIX formula from EVERY 48-bit state / 64-bit seed (one solver query each, no sampling); Rand32/Rand48 draws are pure functions of the state with the documented ranges for every state; sphere samplers: partial correctness of one rejection iteration from an arbitrary state. Sequences are covered by the one-step-from-arbitrary-state form.',
     'Trusted: clang-14, vf/ll2c.py (validated each run), CBMC + cvc5 --solve-bv-as-int=sum for the multiply-by-constant kernels. POSIX reference is the formula of the standard written in the harness. gaussRand finiteness, hollow-sphere unit length and loop termination are outside.', '3/C18')
+ENGC_NOTE = 'Trusted: clang-14 -O1, vf/irsym.py (validated every run: the executor is run concretely on random dyadic inputs and compared with the g++ build of the real code), z3 nlsat. Statements are about the exact-real semantics of the compiled expression DAG and branch structure; rounding, NaN and overflow are outside (DESIGN 2.4). Counterexamples are replayed on the native double/float build before being reported.'
+CLAIMED['C05'] = ('irsym', 'bounded symbolic execution of the clang IR with floats as exact reals; z3 nonlinear real arithmetic proves each output entry equal to the textbook polynomial on every path',
+    'Every product/transposition/minor/determinant spelling (float and double IR) is proved equal to its algebraic definition for ALL real operands, one solver query per output entry and path, including the zero-skipping branches of Matrix44::determinant, all 16 minorOf / 25 fastMinor index combinations and the cofactor-expansion and multiplicativity identities through the real code.',
+    ENGC_NOTE, '3/C05')
+CLAIMED['C06'] = ('irsym', 'bounded symbolic execution of the clang IR over the exact reals; z3 nlsat proves M*X == I and X*M == I (cross-multiplied) or the documented singular outcome on every path',
+    'For inverse()/gjInverse() of Matrix22/33/44 (affine fast path pinned, general 3x3, Gauss-Jordan 3x3; general 4x4 in the thorough tier) every execution path returns a two-sided inverse, or exactly the identity together with the documented reason (|det| <= min*|cofactor|, resp. det == 0 on a zero pivot); exactly singular input returns the identity / throws invalid_argument.',
+    ENGC_NOTE, '3/C06')
 NOT_YET = 'check not built yet in this working session (planned in DESIGN.md section 3); no claim is made'
 NA = {}
 
@@ -50,7 +57,7 @@ def main():
         'engines': [
             {'name': 'cbmc-c', 'path': 'harness/c01/half_c.c + vf/cbmc.py', 'serves_properties': ['C01', 'C02'], 'kind_free_text': 'CBMC on half.h compiled as C'},
             {'name': 'ir2c', 'path': 'vf/ll2c.py + vf/build.py + vf/cbmc.py', 'serves_properties': sorted(CLAIMED), 'kind_free_text': 'clang++-14 -O1 LLVM IR of wrapper TUs (real headers / real .cpp) -> own IR->C translator -> CBMC (minisat/cadical/kissat/z3/cvc5)'},
-            {'name': 'irsym', 'path': 'vf/irsym.py', 'serves_properties': [], 'kind_free_text': 'own symbolic executor over the same LLVM IR, floats as exact reals, z3 nlsat'},
+            {'name': 'irsym', 'path': 'vf/irsym.py + vf/symcase.py', 'serves_properties': ['C05', 'C06'], 'kind_free_text': 'own symbolic executor over the same LLVM IR, floats as exact reals, z3 nlsat'},
         ],
         'checks': checks,
         'not_applicable': na,
